@@ -34,6 +34,8 @@ def content_of(cls, rng, big):
         return 'caf\xe9 cr\xe8me br\xfbl\xe9e\n'.encode('latin-1'), 'latin-1'
     if cls == 'binary':
         return bytes(range(256)) + b'\x00\xff\r\n\r\x1a', None
+    if cls == 'bom':
+        return '\ufeffa byte-order mark is a character like any other\n\ufeffsecond line\n', None
     if cls == 'farcopy':
         return bytes(rng.randrange(256) for _ in range(12000)) * 2, None
     return bytes(rng.randrange(256) for _ in range(4096)) * (big // 4096), None
@@ -136,6 +138,11 @@ def run(ctx):
         ev.append({'k': 'export', 'label': label, 'blob': octets(blob_t), 'inner': octets(inner_t), 'expect': exp})
         # ---- import of the export (binary / armored)
         before = project(msg)
+        # "the same content" is the content the message was built from, not what the message object says about itself
+        if isinstance(content, str):
+            before['content_sha'], before['content_len'] = hashlib.sha256(content.encode("utf-8")).hexdigest(), len(content.encode("utf-8"))
+        elif enc_hint is None:
+            before['content_sha'], before['content_len'] = hashlib.sha256(bytes(content)).hexdigest(), len(content)
         try:
             m2 = pgpy.PGPMessage.from_blob(str(msg) if sc['armor'] else blob)
             ev.append({'k': 'import', 'label': label, 'raised': False, 'before': before, 'after': project(m2), 'clause': 'C20.content' if before['content_sha'] != project(m2)['content_sha'] else 'C20.metadata'})
